@@ -53,12 +53,7 @@ fn ilog2(v: u32) -> (r: u8)
 
 //@ stub u_digits/to_inexact_bitwise_digits_le
 
-//@ assume to_radix_digits_le : repeated single-digit division by radix^power with sqrt-size super-digit splitting for long inputs (src/biguint/convert.rs); ASSUMED with the value-level contract taken from the property statement (digits below radix, positional value equals the input, no leading zero digit)
-#[verifier::external_body]
-fn to_radix_digits_le(u: &BigUint, radix: u32) -> (r: Vec<u8>)
-    requires u.wf(), u.v() != 0, 3 <= radix <= 255, !is_pow2_u32(radix)
-    ensures r@.len() >= 1, digits_below(r@, radix), valr(r@, radix as nat, r@.len()) == u.v(), r@[r@.len() - 1] != 0
-{ unimplemented!() }
+//@ stub u_radixcore/to_radix_digits_le
 
 pub proof fn lemma_pow2_bits(radix: u32, bits: u8)
     requires 2 <= radix <= 256, bits < 32, (1u32 << bits) == radix
